@@ -680,3 +680,50 @@ Section EinsumSingle.
   Definition den_sum (c : coo V) (o : idx) : V :=
     vsum V vzero vadd (map snd (filter (fun e => idx_eqb (fst e) o) (entries c))).
 End EinsumSingle.
+
+(* ---------------------------------------------------------------------- kron (sparse/numba_backend/_coo/common.py) *)
+(* both operands COO with the same number of axes (kron first prepends length-1 axes):
+     a_idx, b_idx = cartesian product of the stored positions
+     o_coords = a.coords[:, a_idx] * b.shape[:, None] + b.coords[:, b_idx];  o_data = a.data[a_idx] * b.data[b_idx]
+     COO(o_coords, o_data, shape = a.shape * b.shape, has_duplicates=False) *)
+Section Kron.
+  Variable V : Type.
+  Variable vmul : V -> V -> V.
+
+  Definition kmix (bs : shape) (ia ib : idx) : idx :=
+    map (fun p => fst (fst p) * snd (fst p) + snd p) (combine (combine ia bs) ib).
+
+  Definition kron_m (a b : coo V) : coo V :=
+    let bs := c_shape b in
+    let es := flat_map (fun ea => map (fun eb => (kmix bs (fst ea) (fst eb), vmul (snd ea) (snd eb))) (entries b)) (entries a) in
+    mkCOO (map (fun p => fst p * snd p) (combine (c_shape a) bs)) (map fst es) (map snd es) (vmul (c_fill a) (c_fill b)).
+End Kron.
+
+(* ---------------------------------------------------------------------- matmul: _matmul_recurser *)
+(* on the dense meaning (functions of index tuples; a[i] / a[0] and stack are C02's / C09's subject):
+     if a.ndim == 2: return dot(a, b)
+     for i in range(max(a.shape[0], b.shape[0])):
+         a_i = a[0] if a.shape[0] == 1 else a[i];  b_i likewise;  res.append(_matmul_recurser(a_i, b_i))
+     return stack(res) *)
+Section MatmulRec.
+  Variable V : Type.
+  Variable vzero : V.
+  Variable vadd vmul : V -> V -> V.
+
+  Fixpoint matmul_rec (sha shb : shape) (n : Z) (a b : idx -> V) : idx -> V :=
+    match sha, shb with
+    | da :: sha', db :: shb' =>
+      fun ix => match ix with
+                | i :: ix' =>
+                  let a_i := fun r => a ((if da =? 1 then 0 else i) :: r) in
+                  let b_i := fun r => b ((if db =? 1 then 0 else i) :: r) in
+                  matmul_rec sha' shb' n a_i b_i ix'
+                | [] => vzero
+                end
+    | _, _ =>
+      fun ix => match ix with
+                | [i; k] => np_matmul2 V vzero vadd vmul n (fun i j => a [i; j]) (fun j k => b [j; k]) i k
+                | _ => vzero
+                end
+    end.
+End MatmulRec.
